@@ -303,7 +303,7 @@ PROPS['C04'] = dict(
 
 PROPS['C12'] = dict(
     sess=[('py_c12', 300, 5000), ('sweep_c12', 400, 8000), ('sess_c12', 200, 4000), ('py_edges', 200, 3000)],
-    events='wrf', state=['cap', 'used', 'ret', 'ctl', 'rel', 'rb', 'pl', 'np', 'pt', 'resumed', 'sp', 'conn', 'live', 'cp', 'cid'],
+    events='wrf', state=['cap', 'used', 'ret', 'ctl', 'rel', 'rb', 'pl', 'np', 'pt', 'resumed', 'sp', 'conn', 'live', 'cp', 'cid', 'quota', 'maxquota'],
     monitors=[M.mon_c12, M.mon_panic],
     title='the session can always be reconnected, whatever happened before',
     claim='Proved in Coq for every session value (so for every history): the preamble of connect() empties the packet reader, clears '
